@@ -37,12 +37,32 @@ func (c *Clause) HasProp(p string) bool {
 	return false
 }
 
+type LetDef struct {
+	Name string
+	Text string
+	Expr Expr
+}
+
 // ModClause is one `modifies` clause (object-level frame).
 type ModClause struct {
 	Props   []string
 	Profile string
 	Exprs   []Expr // empty = modifies nothing
 	Text    string
+}
+
+// WritesClause returns the writes clause applicable under the given profile.
+func (fc *FuncContract) WritesClause(profile string) *ModClause {
+	var generic *ModClause
+	for _, m := range fc.Writes {
+		if m.Profile == profile && profile != "" {
+			return m
+		}
+		if m.Profile == "" {
+			generic = m
+		}
+	}
+	return generic
 }
 
 // Mod returns the modifies clause applicable under the given profile.
@@ -81,7 +101,8 @@ type FuncContract struct {
 	Requires []*Clause
 	Ensures  []*Clause
 
-	Mods []*ModClause
+	Mods   []*ModClause
+	Writes []*ModClause // write-freedom clauses: pre-existing objects that may be written at all (even with equal values)
 
 	Loops    map[int]*LoopContract
 	Inline   bool
@@ -91,6 +112,7 @@ type FuncContract struct {
 	Opaque   bool              // do not inline even if loop free: treat by contract only
 	CallsAs  map[string]string // source text of callee expr -> contract key
 	Logicals []QVar
+	Lets     []*LetDef // names defined from the parameters at entry
 	Logged   bool
 	File     string
 	Line     int
@@ -110,7 +132,16 @@ type GlobalInv struct {
 	Clause *Clause
 }
 
+// AtomicField: a struct field that may only be accessed through sync/atomic.
+type AtomicField struct {
+	Pkg, Type, Field string
+	Props            []string
+	File             string
+	Line             int
+}
+
 type ContractSet struct {
+	AtomicFields []*AtomicField
 	Funcs      map[string]*FuncContract
 	Specs      map[string]*SpecFn
 	GlobalInvs map[string][]*GlobalInv // by <shortpkg>.<global name>
@@ -135,6 +166,11 @@ func (fc *FuncContract) Mentions(prop string) bool {
 		return true
 	}
 	for _, m := range fc.Mods {
+		if has(m.Props) {
+			return true
+		}
+	}
+	for _, m := range fc.Writes {
 		if has(m.Props) {
 			return true
 		}
@@ -164,9 +200,9 @@ func (fc *FuncContract) Mentions(prop string) bool {
 
 var tagRe = regexp.MustCompile(`^\[([^\]]*)\]\s*`)
 var labelRe = regexp.MustCompile(`^([A-Za-z_][A-Za-z0-9_\-]*):\s+`)
-var headRe = regexp.MustCompile(`^(func|iface|sig|extern|spec|globalinv)\s+(.*)$`)
-var clauseKw = map[string]bool{"returns": true, "safety": true, "requires": true, "ensures": true, "modifies": true,
-	"loop": true, "inline": true, "trusted": true, "pure": true, "calls": true, "logical": true, "opaque": true, "logged": true, "noalloc": true}
+var headRe = regexp.MustCompile(`^(func|iface|sig|extern|spec|globalinv|atomicfield)\s+(.*)$`)
+var clauseKw = map[string]bool{"returns": true, "safety": true, "requires": true, "ensures": true, "modifies": true, "writes": true,
+	"loop": true, "let": true, "inline": true, "trusted": true, "pure": true, "calls": true, "logical": true, "opaque": true, "logged": true, "noalloc": true}
 
 func parseTags(s string) (props []string, profile string, rest string) {
 	m := tagRe.FindStringSubmatch(s)
@@ -264,6 +300,16 @@ func (cs *ContractSet) ParseFile(path, pkg string) error {
 				return err
 			}
 			kind, rest := m[1], strings.TrimSpace(m[2])
+			if kind == "atomicfield" {
+				props, _, r := parseTags(rest)
+				parts := strings.Split(strings.TrimSpace(r), ".")
+				if len(parts) != 2 {
+					return fmt.Errorf("%s:%d: atomicfield [props] Type.field", path, lineNo)
+				}
+				cs.AtomicFields = append(cs.AtomicFields, &AtomicField{Pkg: pkg, Type: parts[0], Field: parts[1], Props: props, File: path, Line: lineNo})
+				cur = nil
+				continue
+			}
 			if kind == "globalinv" {
 				// globalinv Name: expr
 				i := strings.Index(rest, ":")
@@ -424,6 +470,16 @@ func (cs *ContractSet) addClause(fc *FuncContract, t, file string, line int) err
 			return fmt.Errorf("%s:%d: calls needs 'as'", file, line)
 		}
 		fc.CallsAs[strings.TrimSpace(rest[:i])] = strings.TrimSpace(rest[i+4:])
+	case "let":
+		i := strings.Index(rest, "=")
+		if i < 0 {
+			return fmt.Errorf("%s:%d: let NAME = expr", file, line)
+		}
+		ex, err := ParseExpr(rest[i+1:])
+		if err != nil {
+			return fmt.Errorf("%s:%d: %v", file, line, err)
+		}
+		fc.Lets = append(fc.Lets, &LetDef{Name: strings.TrimSpace(rest[:i]), Text: strings.TrimSpace(rest[i+1:]), Expr: ex})
 	case "logical":
 		parts := strings.Fields(rest)
 		if len(parts) < 2 {
@@ -440,6 +496,19 @@ func (cs *ContractSet) addClause(fc *FuncContract, t, file string, line int) err
 		} else {
 			fc.Ensures = append(fc.Ensures, c)
 		}
+	case "writes":
+		props, profile, r := parseTags(rest)
+		mc := &ModClause{Props: props, Profile: profile, Text: r}
+		if strings.TrimSpace(r) != "nothing" {
+			for _, part := range splitTop(r, ',') {
+				ex, err := ParseExpr(part)
+				if err != nil {
+					return fmt.Errorf("%s:%d: %v", file, line, err)
+				}
+				mc.Exprs = append(mc.Exprs, ex)
+			}
+		}
+		fc.Writes = append(fc.Writes, mc)
 	case "modifies":
 		props, profile, r := parseTags(rest)
 		mc := &ModClause{Props: props, Profile: profile, Text: r}
